@@ -277,6 +277,8 @@ def r_required_guards(ctx):
 
 
 def check(ctx):
+    from . import c04
+    c04.group_rule(ctx, 'R06.6', r"^(num::(NonZero)?Pow2Usize::new|<error::Span as std::convert::From<&str>>::from|<error::Span as std::convert::From<&'a pest::iterators::Pair<'_, parse::Rule>>>::from|<error::RichError as std::convert::From<pest::error::Error<parse::Rule>>>::from|types::UIntType::(byte_width|bit_width|from_bit_width)|error::Span::to_slice|<value::UIntValue as std::convert::TryFrom<&\\[u8\\]>>::try_from)$", 'functions whose results are preconditions of panic-capable sites (positions >= 1, power-of-two bounds > 1, byte widths)', 6)
     r_required_guards(ctx)
     r_shape_selftest(ctx)
     n = panic_rule(ctx, 'R06.1')
